@@ -1,7 +1,7 @@
 (* Impl layer: spec_parser.replace_operators - the textual preprocessing of guard expressions:
      pattern = re.compile(r"\!(?!=)|\^|\bv\b");  "!" -> "not ", "^" -> " and ", "v" -> " or "
    on texts as lists of character codes.  A word character is what the regex engine's \w is for ASCII
-   (letters, digits, underscore); \b holds between a word and a non-word character (or a text end).
+   (letters, digits, underscore) and for the letters of Latin-1; \b holds between a word and a non-word character (or a text end).
    No proofs here. *)
 From Coq Require Import List Arith Bool.
 Import ListNotations.
@@ -10,7 +10,10 @@ Definition is_word (c : nat) : bool :=
   (Nat.leb 48 c && Nat.leb c 57)          (* 0-9 *)
   || (Nat.leb 65 c && Nat.leb c 90)       (* A-Z *)
   || (Nat.leb 97 c && Nat.leb c 122)      (* a-z *)
-  || Nat.eqb c 95.                        (* _ *)
+  || Nat.eqb c 95                         (* _ *)
+  (* the pattern is a str pattern: \w is Unicode-aware; of the non-ASCII characters the letters of Latin-1
+     are modelled (À-ÿ without the two signs × and ÷) *)
+  || (Nat.leb 192 c && Nat.leb c 255 && negb (Nat.eqb c 215) && negb (Nat.eqb c 247)).
 
 Definition bang := 33.   Definition eq_sign := 61.   Definition caret := 94.   Definition vee := 118.
 Definition s_not : list nat := [110; 111; 116; 32].            (* "not " *)
